@@ -303,7 +303,8 @@ def native_mech_witness(A, D, names):
                 return out
             full = {'a': np.exp(-b_ * t), 'b': -a_ * t * np.exp(-b_ * t), 'c': t}
             return out, np.stack([full[n_] for n_ in self._req], axis=1)[:, np.newaxis, :]
-    seqs = [[{'b': 0.5}], [{'a': 1.0, 'c': 0.3}, {'a': None}], [{'b': 0.5}, {'b': None}], [{'a': 1.0}, {'c': 2.0}, {'a': None, 'c': None}], [{'c': 0.2}, {'c': 0.7}]]
+    seqs = [[{'b': 0.5}], [{'a': 1.0, 'c': 0.3}, {'a': None}], [{'b': 0.5}, {'b': None}], [{'a': 1.0}, {'c': 2.0}, {'a': None, 'c': None}], [{'c': 0.2}, {'c': 0.7}],
+            [{'a': 1.0}, {'a': None, 'b': 0.5}], [{'a': 1.0, 'b': 0.4}, {'a': None, 'c': 0.3}], [{'c': 0.2}, {'c': None, 'a': 1.1}]]      # one call that releases and fixes (same count)
     t = [0.5, 1.0, 2.0]
     for seq in seqs:
         for sens_first in (False, True):
@@ -329,6 +330,12 @@ def native_mech_witness(A, D, names):
                     if np.asarray(se).shape != (len(t), 1, len(free)):
                         return {'what': 'after the calls %s (sensitivities enabled first: %s) the sensitivities have shape %s for the %d free parameters %s' % (
                             seq, sens_first, np.asarray(se).shape, len(free), free), 'expected': str((len(t), 1, len(free))), 'observed': str(np.asarray(se).shape)}
+                    tt = np.asarray(t, dtype=float)
+                    full = {'a': np.exp(-vals['b'] * tt), 'b': -vals['a'] * tt * np.exp(-vals['b'] * tt), 'c': tt}
+                    want_se = np.stack([full[n_] for n_ in free], axis=1)[:, np.newaxis, :] if free else np.zeros((len(t), 1, 0))
+                    if not np.allclose(np.asarray(se, dtype=float), want_se):
+                        return {'what': 'after the calls %s (sensitivities enabled first: %s) the sensitivity columns are not the derivatives with respect to the free parameters %s' % (seq, sens_first, free),
+                                'expected': want_se.tolist(), 'observed': np.asarray(se, dtype=float).tolist()}
             except Exception as ex:
                 return {'what': 'after the calls %s simulate raises %r' % (seq, ex), 'expected': 'values', 'observed': repr(ex)}
             if not np.allclose(got, want):
@@ -601,7 +608,8 @@ def native_owner_witness(which):
     vals = np.array([1.2, 0.4, 0.6, 0.3])
     t, y = [1.0, 2.0, 3.0], [1.5, 2.5, 2.0]
     full = real.LogLikelihood(Toy(), real.ConstantAndMultiplicativeGaussianErrorModel(), y, t)
-    for seq in ([{'Sigma rel.': 0.3}], [{'a': 1.2}, {'Sigma base': 0.6}], [{'b': 0.4, 'Sigma base': 0.6}, {'b': None}], [{'a': 1.2}, {'a': None}], [{'Sigma rel.': 9.0}, {'Sigma rel.': 0.3}]):
+    for seq in ([{'Sigma rel.': 0.3}], [{'a': 1.2}, {'Sigma base': 0.6}], [{'b': 0.4, 'Sigma base': 0.6}, {'b': None}], [{'a': 1.2}, {'a': None}], [{'Sigma rel.': 9.0}, {'Sigma rel.': 0.3}],
+                [{'Sigma base': 0.6, 'Sigma rel.': 0.3}], [{'Sigma base': 0.6}, {'Sigma rel.': 0.3}, {'a': 1.2}], [{'a': 1.2, 'b': 0.4}]):      # every error parameter fixed (known noise); every mechanistic one
         ll = real.LogLikelihood(Toy(), real.ConstantAndMultiplicativeGaussianErrorModel(), y, t) if which == 'LogLikelihood' else \
             real.PredictiveModel(Toy(), real.ConstantAndMultiplicativeGaussianErrorModel())
         Af = {}
